@@ -6,5 +6,5 @@ TextAlpha == {97, 90, 32, 9, 1, 233}       \* a Z space tab 0x01 0xE9
 TextAlpha8 == {97, 90, 32, 9, 10, 1, 127, 233}   \* thorough: + newline, DEL
 IntsQuick == -6 .. 6
 IntsThorough == -8 .. 8
-ObsEmit(op, args, ret, post) == PrintT(ToJson([op |-> op, args |-> args, exp |-> ret]))
+ObsEmit(op, args, ret, post) == PrintT(ToJson([op |-> op, args |-> args, exp |-> ret, lv |-> DebugLevels]))
 ================================================================================
